@@ -70,6 +70,46 @@ MUTANTS = [
      "            remove_from_list(cc.inner.cast());\n\n            // SAFETY: cc is unique", "            // SAFETY: cc is unique"),
     ("c14-closure-strong-count-left-at-1", ["C14"], "src/weak/mod.rs",
      "            let _ = counter_marker.decrement_counter();\n        }", "            let _ = counter_marker;\n        }"),
+    ("c15-should-collect-ge", ["C15"], "src/config.rs",
+     "        if state.allocated_bytes() > self.bytes_threshold {\n            return true;", "        if state.allocated_bytes() >= self.bytes_threshold {\n            return true;"),
+    ("c15-buffered-threshold-ge", ["C15"], "src/config.rs",
+     "            possible_cycles.size() > buffered_threshold.get()", "            possible_cycles.size() >= buffered_threshold.get()"),
+    ("c15-halving-floor-off-by-one", ["C15"], "src/config.rs",
+     "            if new_threshold <= DEFAULT_BYTES_THRESHOLD {", "            if new_threshold < DEFAULT_BYTES_THRESHOLD {"),
+    ("c15-halving-condition-lt", ["C15"], "src/config.rs",
+     "        while allocated <= ((self.bytes_threshold as f64) * self.adjustment_percent) {", "        while allocated < ((self.bytes_threshold as f64) * self.adjustment_percent) - 64.0 {"),
+    ("c16-strong-max-is-mask", ["C16", "C04"], "src/counter_marker.rs",
+     "pub(crate) const MAX: u16 = COUNTER_MASK - 1;", "pub(crate) const MAX: u16 = COUNTER_MASK;"),
+    ("c16-weak-clone-unchecked", ["C16", "C09"], "src/weak/mod.rs",
+     "            if wcm.increment_counter().is_err() {\n                panic!(\"Too many references has been created to a single Weak\");\n            }", "            let _ = wcm.increment_counter();"),
+    ("c17-result-traces-only-ok", ["C17"], "src/trace.rs",
+     "            Err(err) => err.trace(ctx),", "            Err(_err) => {},"),
+    ("c17-refcell-traces-through-try_borrow", ["C17"], "src/trace.rs",
+     "        if let Ok(borrow) = self.try_borrow_mut() {\n            borrow.trace(ctx);", "        if let Ok(borrow) = self.try_borrow() {\n            borrow.trace(ctx);"),
+    ("c17-array-skips-last", ["C17"], "src/trace.rs",
+     "unsafe impl<T: Trace, const N: usize> Trace for [T; N] {\n    #[inline]\n    fn trace(&self, ctx: &mut Context<'_>) {\n        for elem in self {",
+     "unsafe impl<T: Trace, const N: usize> Trace for [T; N] {\n    #[inline]\n    fn trace(&self, ctx: &mut Context<'_>) {\n        for elem in self.iter().take(N.max(1) - (N > 8) as usize) {"),
+    ("c17-option-finalize-not-forwarded", ["C17"], "src/trace.rs",
+     "        if let Some(value) = self {\n            value.finalize();\n        }", "        if let Some(_value) = self {\n        }"),
+    ("c17-weak-traces-target", ["C17", "C08", "C02"], "src/weak/mod.rs",
+     "    fn trace(&self, _: &mut Context<'_>) {\n        // Do not trace anything here, otherwise it wouldn't be a weak pointer\n    }",
+     "    fn trace(&self, ctx: &mut Context<'_>) {\n        if self.strong_count() != 0 {\n            CcBox::trace_inner_pub(self.cc.cast(), ctx);\n        }\n    }"),
+    ("c18-ignore-filter-inverted-for-variants", ["C18"], "derive/src/lib.rs",
+     "        s.filter_variants(|vi| {\n            !vi.ast().attrs", "        s.filter_variants(|vi| {\n            vi.ast().attrs"),
+    ("c18-drop-emission-removed", ["C18"], "derive/src/lib.rs",
+     "    if no_drop {\n        return trace_impl;\n    }", "    if no_drop || true {\n        return trace_impl;\n    }"),
+    ("c18-ignored-field-still-traced-in-tuple-structs", ["C18"], "derive/src/lib.rs",
+     "    s.filter(|bi| {\n        !bi.ast().attrs", "    s.filter(|bi| {\n        bi.ast().ident.is_none() || !bi.ast().attrs"),
+    ("c19-add_to_list-with", ["C19"], "src/cc.rs",
+     "    if !counter_marker.is_in_possible_cycles() {\n        let _ = POSSIBLE_CYCLES.try_with(|pc| {", "    if !counter_marker.is_in_possible_cycles() {\n        let _ = POSSIBLE_CYCLES.with(|pc| {"),
+    ("c20-lt-as-le", ["C20"], "src/cc.rs",
+     "    fn lt(&self, other: &Self) -> bool {\n        **self < **other", "    fn lt(&self, other: &Self) -> bool {\n        **self <= **other"),
+    ("c20-ptr_eq-compares-values-address-of-clone", ["C20"], "src/cc.rs",
+     "        ptr::eq(this.inner.as_ptr() as *const (), other.inner.as_ptr() as *const ())", "        ptr::eq(this.inner.as_ptr() as *const (), other.inner.as_ptr() as *const ()) || (core::mem::size_of_val(&**this) == 0 && core::mem::size_of_val(&**other) == 0)"),
+    ("c20-hash-adds-prefix", ["C20"], "src/cc.rs",
+     "        (**self).hash(state);", "        state.write_u8(0);\n        (**self).hash(state);"),
+    ("c20-display-uses-debug", ["C20"], "src/cc.rs",
+     "        Display::fmt(&**self, f)", "        write!(f, \"{}\", &**self)"),
     ("c14-d2-reverted", ["C14", "C07"], "src/weak/mod.rs",
      "            #[cfg(feature = \"auto-collect\")]\n            crate::trigger_collection(state);\n\n            CcBox::new(NewCyclicWrapper::new(), state)",
      "            let w = NewCyclicWrapper::new();\n            #[cfg(feature = \"auto-collect\")]\n            crate::trigger_collection(state);\n\n            CcBox::new(w, state)"),
